@@ -1,6 +1,7 @@
 package main
 
 import (
+	"fmt"
 	"go/ast"
 	"go/constant"
 	"go/token"
@@ -27,7 +28,7 @@ import (
 //	                                                                  srvInitialStatus, srvNilStatus, errorHeaderValue
 //	restli/handler.go receive the status of the ErrorResponse built in the deferred recover -> recoverStatus
 //	restli/handler.go NewPrefixedServer  how rootNode.prefix is initialised -> prefixIsLiteral, prefixLiteral
-//	restli/handler.go AddToMux  the pattern expression passed to mux.Handle -> muxPatternTrailingSlash
+//	restli/handler.go AddToMux  the pattern expressions passed to mux.Handle -> muxPatterns (subtree?)
 //	restli/server.go          `ctx.ResponseStatus = http.StatusX` per Register function -> respStatusSet
 func init() {
 	registerTables("routing", func(e *emitter, root string, isRoot bool) {
@@ -394,7 +395,7 @@ func init() {
 		if atm == nil {
 			fatalf("routing: rootNode.AddToMux not found")
 		}
-		handleCalls, trailing := 0, false
+		var patterns []string
 		ast.Inspect(atm, func(n ast.Node) bool {
 			c, ok := n.(*ast.CallExpr)
 			if !ok {
@@ -404,24 +405,27 @@ func init() {
 			if !ok || se.Sel.Name != "Handle" || len(c.Args) != 2 {
 				return true
 			}
-			handleCalls++
-			// r.prefix + rootResource [+ "/"]
-			if be, ok := c.Args[0].(*ast.BinaryExpr); ok && be.Op == token.ADD {
-				if bl, ok := be.Y.(*ast.BasicLit); ok {
-					if s, _ := strconv.Unquote(bl.Value); strings.HasSuffix(s, "/") {
-						trailing = true
-					}
-				}
-			} else {
+			// r.prefix + rootResource [+ "/"]: a pattern ending in "/" is a subtree pattern
+			be, ok := c.Args[0].(*ast.BinaryExpr)
+			if !ok || be.Op != token.ADD {
 				fatalf("routing: AddToMux: unexpected pattern expression")
 			}
+			subtree := false
+			if bl, ok := be.Y.(*ast.BasicLit); ok {
+				s, _ := strconv.Unquote(bl.Value)
+				if s != "/" {
+					fatalf("routing: AddToMux: unexpected pattern suffix %q", s)
+				}
+				subtree = true
+			}
+			patterns = append(patterns, fmt.Sprint(subtree))
 			return true
 		})
-		if handleCalls == 0 {
+		if len(patterns) == 0 {
 			fatalf("routing: AddToMux: no mux.Handle call found")
 		}
-		e.f("def muxHandleCalls : Nat := %d", handleCalls)
-		e.f("def muxPatternTrailingSlash : Bool := %v", trailing)
+		// one entry per mux.Handle call, in source order: true = subtree pattern (prefix+root+"/")
+		e.f("def muxPatterns : List Bool := [%s]", strings.Join(patterns, ", "))
 
 		// ---- server.go: per Register function, the statuses assigned to ctx.ResponseStatus
 		var rs []string
